@@ -1,4 +1,4 @@
-import ChythonModel.Proofs.C17WF
+import ChythonModel.Proofs.C17Bridge
 /-! C17: `_fragments` — label sequences, direction-free key, the `defaultdict(list)` grouping. -/
 set_option linter.unusedSimpArgs false
 namespace ChythonModel.Proofs.C17
@@ -35,32 +35,12 @@ theorem lookup_map_snd {β γ : Type} (f : β → γ) : ∀ (l : List (Nat × β
     simp only [List.map_cons, List.lookup_cons]
     split <;> simp [lookup_map_snd f l k]
 
-theorem lookup_isSome_of_mem_keys {β : Type} : ∀ (l : List (Nat × β)) (k : Nat), k ∈ l.map (·.1) → ∃ v, l.lookup k = some v
-  | [], _, h => by simp at h
-  | (k', v) :: l, k, h => by
-    rw [List.lookup_cons]
-    by_cases e : k = k'
-    · subst e; simp
-    · have : (k == k') = false := by simpa using e
-      rw [this]
-      simp only [List.map_cons, List.mem_cons] at h
-      rcases h with h | h
-      · exact absurd h e
-      · exact lookup_isSome_of_mem_keys l k h
-
 theorem getItem_ident (H : TupleHash) (m : Mol) (x : Nat) (hx : x ∈ m.ids) :
     getItem (atomIdentifiers H m) x = .ok (identOf H m x) := by
   unfold getItem atomIdentifiers identOf Mol.atom?
   rw [lookup_map_snd]
   obtain ⟨a, ha⟩ := lookup_isSome_of_mem_keys m.atoms x hx
   rw [ha]; rfl
-
-theorem getItem_adj (m : Mol) (hwf : m.WF = true) (x : Nat) (hx : x ∈ m.ids) :
-    getItem m.adj x = .ok (m.nbrs x) := by
-  unfold getItem Mol.nbrs
-  have hk := (wf_parts m hwf).2.1
-  obtain ⟨ms, hms⟩ := lookup_isSome_of_mem_keys m.adj x (by rw [hk]; exact hx)
-  rw [hms]; rfl
 
 theorem getItem_bond (m : Mol) (x y : Nat) (h : Adj m x y) :
     ∃ b, getItem (m.nbrs x) y = .ok b ∧ orderOf m x y = (b.order : Int) := by
